@@ -444,11 +444,13 @@ def e2e_monitor(ctx) -> None:
         ref = results[0]
         for var, line, res in results[1:]:
             if res[:4] != ref[2][:4]:
-                kind = 'sibling_differs'
-                obs = {'kind': kind, 'template': tname}
-                if isinstance(v, str) and '}' in v and 'atom' in (var['kinds'], ref[0]['kinds']):
-                    obs['class'] = 'atom_rbrace'
-                ctx.failure('command_spelling',
+                clause = 'command_spelling'
+                obs = {'kind': 'sibling_differs', 'template': tname}
+                if isinstance(v, (str, bytes)) and ('}' in v if isinstance(v, str) else b'}' in v) \
+                        and 'atom' in (var['kinds'], ref[0]['kinds']) \
+                        and (b'TAG BAD' in b''.join(res[0]) or b'TAG BAD' in b''.join(ref[2][0])):
+                    clause, obs = 'astring_spelling', {'kind': 'atom_rbrace'}   # known finding C18-F3
+                ctx.failure(clause,
                             f'{tname}: {line!r} answered {res[0]!r} / state {res[1]!r}, but '
                             f'{ref[1]!r} answered {ref[2][0]!r} / state {ref[2][1]!r}',
                             {'template': tname, 'value': repr(v), 'line_a': ref[1].hex(),
@@ -466,7 +468,7 @@ def e2e_monitor(ctx) -> None:
                     got = [ref_mutf7_decode(n) for n in reported_names(raw, kind)]
                 except Exception as exc:
                     got = [f'<undecodable: {exc!r}>']
-                want = 'INBOX' if name.upper() == 'INBOX' else name
+                want = 'INBOX' if name.isascii() and name.upper() == 'INBOX' else name
                 if want not in got:
                     ctx.failure('mailbox_report_roundtrip',
                                 f'{kind.decode()} after creating {name!r} reports {got!r}',
@@ -480,15 +482,15 @@ def section(ctx) -> None:
     from pymap.parsing import Space, EndLine
     from pymap.imap import IMAPConnection
     from ..pymap_env import DictEnv, run
-    from .C18_strings import B, impl_parse, sweep, small_strings, mutate, INTERESTING
+    from .C18_strings import B, thin, impl_parse, sweep, small_strings, mutate, INTERESTING
     rng = ctx.rng
     quick = ctx.quick
-    SH = dict(shard=600)
+    SH = dict(shard=1500)
     vals_ = INTERESTING if quick else None
 
     # --- Space / EndLine / _literal_plus
     stream = small_strings(b' \r\nx', 4 if quick else 5) + sweep([b'  \r\nx', b' \n'], vals_)
-    stream = list(dict.fromkeys(stream))
+    stream = thin(ctx, stream, 600)
     c1, c2 = [], []
     for buf in stream:
         r = impl_parse(Space, buf)
@@ -502,7 +504,7 @@ def section(ctx) -> None:
     lines = small_strings(b'{1+}\r', 4 if quick else 6)
     lines = [x + b'\n' for x in lines] + sweep([b'a {12+}\r\n', b'{3+}\n', b'x{0+}\r\n'], vals_) \
         + [b'', b'{3+}', b'{3+}\r', b'{+}\r\n', b'{3+}\r\r\n', b'{3+}\n\n', b'{12{3+}\r\n']
-    lines = list(dict.fromkeys(lines))
+    lines = thin(ctx, lines, 1000)
     cl = []
     for ln in lines:
         # as IMAPConnection.readline consults it (only on lines that end in LF)
@@ -526,7 +528,7 @@ def section(ctx) -> None:
                    b'a LOGIN {3}\r\nab', b'a LOGIN {3+}\r\nab', b'a LOGIN u p', b'']
         streams += sweep([b'a LOGIN {1+}\r\nu "p"\r\nb', b'a DELETE {1}\r\nx\r\n'], vals_, not quick)
         streams += [gen_stream(rng) for _ in range(ctx.scale(900, 25000))]
-        streams = list(dict.fromkeys(streams))
+        streams = thin(ctx, streams, 1300)
         cr, cc, keep_r, keep_c = [], [], [], []
         for st in streams:
             res = await impl_read_command(config, st)
